@@ -1924,14 +1924,15 @@ class SessionCache(object):
                 continue
 
             if not isinstance(reverse, Set): throw(NotImplementedError)
-            if reverse in modified_m2m: continue
-            added, removed = modified_m2m.setdefault(attr, (set(), set()))
+            is_reverse_side = reverse in modified_m2m  # the same changes were already collected from the other side
+            if not is_reverse_side: added, removed = modified_m2m.setdefault(attr, (set(), set()))
             for obj in objects:
                 setdata = obj._vals_[attr]
-                if setdata.added:
-                    for obj2 in setdata.added: added.add((obj, obj2))
-                if setdata.removed:
-                    for obj2 in setdata.removed: removed.add((obj, obj2))
+                if not is_reverse_side:
+                    if setdata.added:
+                        for obj2 in setdata.added: added.add((obj, obj2))
+                    if setdata.removed:
+                        for obj2 in setdata.removed: removed.add((obj, obj2))
                 if obj._status_ == 'marked_to_delete': del obj._vals_[attr]
                 else: setdata.added = setdata.removed = setdata.absent = None
         cache.modified_collections.clear()
